@@ -33,6 +33,31 @@ def extract(repo, cname, relpath):
     return {'c': ctext, 'lines': (first, last), 'origin': origin, 'rules_fired': rw.fired, 'path': relpath}
 
 
+SIG_FWD = r'\bbool\s+InterpreterImpl::isMatched\s*\(\s*const\s+Event\s*&\s*(\w+)\s*,\s*const\s+std::string\s*&\s*(\w+)\s*\)\s*'
+FWD_PATH = 'src/uscxml/interpreter/InterpreterImpl.cpp'
+
+
+def extract_forwarder(repo):
+    """InterpreterImpl::isMatched(event, eventDesc): <event>.name -> the string parameter event_name, nameMatch( -> nm_core(
+    (the extracted uscxml::nameMatch).  Anything else in the body must be plain string code the rewriter understands."""
+    path = os.path.join(repo, FWD_PATH)
+    first, last, sig, body = rules.find_function(path, SIG_FWD)
+    m = re.search(SIG_FWD, sig)
+    ev, desc = m.group(1), m.group(2)
+    body = re.sub(r'\b%s\s*\.\s*name\b' % ev, 'event_name', body)
+    body = re.sub(r'\b(?:uscxml::)?nameMatch\s*\(', 'nm_core(', body)
+    if re.search(r'\b%s\b' % ev, rules.strip_literals(body)):
+        raise rules.ExtractionError('isMatched uses the event beyond its name: not a forwarder any more')
+    rw = rules.StringRewriter([desc, 'event_name'])
+    out = [rw.rewrite_line(l) for l in body.split('\n')]
+    ctext = 'bool nm_forward(vstr event_name, vstr %s) {\n%s\n}\n' % (desc, '\n'.join(l for l in out if l.strip()))
+    rules.check_residue(ctext, rw.sv, FWD_PATH)
+    if 'nm_core(' not in ctext:
+        raise rules.ExtractionError('isMatched does not call nameMatch any more')
+    return {'c': ctext, 'lines': (first, last), 'path': FWD_PATH, 'cname': 'nm_forward', 'what': 'InterpreterImpl::isMatched (forwarder to uscxml::nameMatch)',
+            'origin': ['%s:%d' % (FWD_PATH, first)], 'rules_fired': rw.fired}
+
+
 def write_all(repo, outdir):
     os.makedirs(outdir, exist_ok=True)
     infos = []
@@ -45,6 +70,10 @@ def write_all(repo, outdir):
         parts.append('/* %s  %s:%d-%d */' % (what, rel, info['lines'][0], info['lines'][1]))
         parts.append(info['c'])
         infos.append(info)
+    fw = extract_forwarder(repo)
+    parts.append('/* %s  %s:%d-%d */' % (fw['what'], fw['path'], fw['lines'][0], fw['lines'][1]))
+    parts.append(fw['c'])
+    infos.append(fw)
     p = os.path.join(outdir, 'nm_extracted.c')
     open(p, 'w').write('\n'.join(parts))
     with open(os.path.join(outdir, 'nm_origin.txt'), 'w') as f:
